@@ -9,6 +9,7 @@ FCSData, and the projected attributes are compared with the spec's.
 import datetime
 import json
 import os
+import time
 import warnings
 
 from harness import core, tlc, fcsgen
@@ -135,10 +136,32 @@ def timing_case(chk, F, scn, out, idx):
         ev[-1][2] += 0.25
     pairs = fcsgen.sample_pairs(3, names, [{'I': 16, 'F': 32, 'D': 64}[dt]] * D, [1024] * D, pne=['0,0'] * D, extra=extra, datatype=dt)
     obs = {}
+    # the process's time zone is a rendering dimension: the keywords are wall-clock readings of the instrument, so the
+    # derived attributes must not depend on where the analysis runs.  POSIX TZ strings (no tzdata needed); the third one
+    # switches to summer time on 3 February at 10:30 and back on 31 December at 10:30 - inside the acquisitions of the
+    # specification's two dates (3-Feb-2015 and 31-Dec-1999, clocks 10:xx / 11:xx)
+    os.environ['TZ'] = TZS[idx % len(TZS)]
+    time.tzset()
     try:
         d = F.load(pairs, ev, 'FCS' + ver, datatype=dt)
     except Exception as e:  # noqa
         return {'load': 'raises:' + type(e).__name__}, 'load-raises'
+    finally:
+        os.environ['TZ'] = 'UTC'
+        time.tzset()
+    os.environ['TZ'] = TZS[idx % len(TZS)]
+    time.tzset()
+    try:
+        return _timing_obs(d, obs, names, out, dt)
+    finally:
+        os.environ['TZ'] = 'UTC'
+        time.tzset()
+
+
+TZS = ['UTC', 'NZST-12NZDT,M9.5.0,M4.1.0/3', 'XST8XDT,J34/10:30,J365/10:30', 'EST5EDT,M3.2.0,M11.1.0', 'IST-5:30']
+
+
+def _timing_obs(d, obs, names, out, dt):
     obs['time_step'] = d.time_step
     if list(d.channels) != names:
         return {'channels': list(d.channels)}, 'channel-names-not-as-written'
